@@ -136,3 +136,5 @@ def run(R):
                                   lambda kw, u=u, k=k, n=n: [R.call(h, u + k, [a, n], opts=E.Opts(**kw))], finite(a), portfolio=PF)
         c = R.call(h, "mulr_" + k, [a, n])
         R.witness("mulr_%s/reach-nan" % k, [a, n], [c], finite(a), isnan_raw(c.out))
+    # the optimised code computes what the source computes (every wrapper, clang -O2)
+    R.tv_guard(h, units())
